@@ -154,6 +154,15 @@ impl<T> VxIter<T> {
             forall|i: int| #![trigger r.seq()[i]] #![trigger self.seq()[i]] #![trigger other.seq()[i]] 0 <= i < r.seq().len() ==> r.seq()[i] == (self.seq()[i], other.seq()[i]),
     { unimplemented!() }
 
+    /// itertools::Itertools::cartesian_product (row major: self is the slow index)
+    #[verifier::external_body]
+    pub fn cartesian_product<U>(self, other: VxIter<U>) -> (r: VxIter<(T, U)>)
+        ensures
+            r.seq().len() == self.seq().len() * other.seq().len(),
+            forall|i: int, j: int| 0 <= i < self.seq().len() && 0 <= j < other.seq().len()
+                ==> #[trigger] r.seq()[i * other.seq().len() + j] == (self.seq()[i], other.seq()[j]),
+    { unimplemented!() }
+
     #[verifier::external_body]
     pub fn enumerate(self) -> (r: VxIter<(usize, T)>)
         ensures
